@@ -28,7 +28,9 @@
  *
  * params: tp=ux|uxf|tcp|tls  target=srv|a|b  big=0|1  scert=<dir> ccert=<dir>  names=<n>
  *         c0=<spec> c1=<spec> c2=<spec>   spec: r:<items> | x:<items> | r*<maxlen> | x*<maxlen>
- *         alpha=<items>  rel=<stage>  svc=all|none  pumpn=<n>  menu=<hex>  horizon=<n>
+ *         alpha=<items>  rel=<stage>  svc=all|none  pumpn=<n>  menu=<hex>  horizon=<n>  mon=0|1
+ *         probe16=1: C16 probe - sessions are kept open at the end and xcm_fd of the idle target must be quiet
+ *                    (an empty session "r:" as the last client is the one beyond the two-entry session table)
  *   items  a get-attr xcm.type          b get-attr <long attribute>      k get-attr tls.key
  *          u get-attr no.such.attr      l get-attr <list element>        g get-all
  *          z 0-byte datagram            o 1-byte datagram                m size-1          p size+1
@@ -335,6 +337,7 @@ struct client {
     int waiting_owed;        /* ... and a reply is owed (well-formed request on a healthy session) */
     int pumps_at_send;
     int done;
+    int parked;              /* probe16: items finished, session kept open */
     int step;
     unsigned char *buf;
 };
@@ -557,27 +560,113 @@ static void run_script(struct side *x)
 }
 
 /* the owner of the target keeps its event loop running while control sessions are open */
+/* ---- C16 probe (probe16=1): with the control sessions STILL OPEN and everything they asked for answered and
+   read, the application's descriptor must be quiet.  A client that has finished its items "parks" (keeps its
+   session) until the probe has been taken; a client with an empty session (the one meant to sit beyond the
+   two-entry session table) connects only when all clients before it have parked, so that it really is the one
+   left un-accepted in the listen queue. */
+static int g_probe16, g_probe_done;
+static int g_settled;                /* clients parked or gone */
+
+static int probe_over(void *arg)
+{
+    (void)arg;
+    return g_probe_done || g_tclosed;
+}
+
+static void park(struct client *c)
+{
+    if (!g_probe16)
+        return;
+    c->parked = 1;
+    g_settled++;
+    mc_observe("%s keeps its session open", c->name);
+    mc_wait_cond(probe_over, NULL, "parked");
+}
+
+static int earlier_clients_settled(void *arg)
+{
+    struct client *c = arg;
+    return g_settled >= c->idx || g_tclosed;
+}
+
+static int svc_goal_met(void)
+{
+    if (g_probe16 && !g_probe_done)
+        return g_settled >= g_ncl && A.pc >= 5 && B.pc >= 5;
+    return g_clients_done >= g_ncl;
+}
+
 static int svc_ready(void *arg)
 {
     (void)arg;
-    if (g_clients_done >= g_ncl)
+    if (svc_goal_met())
         return 1;
     return (fd_readable_mask(xcm_fd(g_tsock)) & POLLIN) != 0;
+}
+
+static void probe16(struct side *x)
+{
+    int open_sessions = 0, server = g_tsock == g_server;
+    if (A.failed || B.failed || g_tclosed)
+        return;
+    for (int i = 0; i < g_ncl; i++) {
+        struct client *c = &g_cl[i];
+        if (!c->parked)
+            return;                     /* a session that failed on the way: nothing to state about it */
+        if (c->qh != c->qt || c->poisoned)
+            return;                     /* replies left unread / malformed traffic: not the situation C16 names */
+        open_sessions++;
+    }
+    if (!server && API("xcm_finish", 1, xcm_finish(g_tsock)) < 0)
+        return;
+    /* service the control interface until it has nothing left to do: a connection queued while the session
+       table has room is accepted by the next rounds, a reply refused with EAGAIN is sent by the next one.  With
+       the table full the library takes its listening descriptor out of the epoll set, so a third connection
+       waiting in the listen queue is NOT a reason to be readable. */
+    int cond = server ? XCM_SO_ACCEPTABLE : 0, m = 0;
+    for (int round = 0; round < 8; round++) {
+        pump(g_tsock);
+        if (API("xcm_await", 1, xcm_await(g_tsock, cond)) < 0)
+            return;
+        m = 0;
+        for (int i = 0; i < 3; i++)
+            m |= fd_readable_mask(xcm_fd(g_tsock));
+        if (!m)
+            break;
+    }
+    mc_count(5, 1);
+    mc_observe("%s C16 probe: %d open control sessions, xcm_fd events 0x%x", x->name, open_sessions, m);
+    if (m) {
+        char sig[160];
+        snprintf(sig, sizeof sig, "C16/readable-while-idle/ctl-sessions=%d/target=%s/tp=%s", open_sessions,
+                 server ? "server" : "conn", g_tp);
+        V(sig, "%s: traffic finished and flushed, %d control session(s) open with every request answered and read, the control "
+          "interface serviced 8 more rounds (8 x %d xcm_finish), awaiting %s: xcm_fd still reports 0x%x - an event loop "
+          "would spin", x->name, open_sessions, g_pumpn, server ? "XCM_SO_ACCEPTABLE with no connection pending" : "nothing (condition 0)", m);
+    }
+    API("xcm_await", 1, xcm_await(g_tsock, 0));
 }
 
 static void serve(struct side *x)
 {
     if (!owns_target(x) || !g_tsock || g_tclosed || !strcmp(g_svc, "none"))
         return;
-    while (g_clients_done < g_ncl) {
-        if (API("xcm_await", 1, xcm_await(g_tsock, 0)) < 0)
-            return;
-        mc_wait_cond(svc_ready, NULL, "serve");
-        if (g_clients_done >= g_ncl)
+    for (;;) {
+        while (!svc_goal_met()) {
+            if (API("xcm_await", 1, xcm_await(g_tsock, 0)) < 0)
+                return;
+            mc_wait_cond(svc_ready, NULL, "serve");
+            if (svc_goal_met())
+                break;
+            pump(g_tsock);
+            mc_observe("%s served the control interface (pump %d)", x->name, g_pumps);
+            mc_set_progress(0);
+        }
+        if (!g_probe16 || g_probe_done)
             break;
-        pump(g_tsock);
-        mc_observe("%s served the control interface (pump %d)", x->name, g_pumps);
-        mc_set_progress(0);
+        probe16(x);
+        g_probe_done = 1;
     }
     /* one more round so that the sessions closed last are taken down by the library itself */
     pump(g_tsock);
@@ -727,6 +816,9 @@ static void task_b(void *arg)
 }
 
 /* ---- control clients ----------------------------------------------------------------------------------- */
+static void park(struct client *c);
+static int earlier_clients_settled(void *arg);
+
 static const char *item_attr(char it)
 {
     switch (it) {
@@ -1032,6 +1124,8 @@ static void raw_client(struct client *c)
     choose_session(c);
     mc_observe("%s session \"%s\"", c->name, c->items);
     c->buf = malloc(MSGSZ + 16);
+    if (g_probe16 && c->nitems == 0)
+        mc_wait_cond(earlier_clients_settled, c, "wait-for-full-table");
     if (g_tclosed)
         goto out;
     mc_sched_point("c-connect");
@@ -1079,6 +1173,8 @@ static void raw_client(struct client *c)
                 break;
         }
     }
+    if (c->poisoned != 2)
+        park(c);
     mc_sched_point("c-close");
     close(c->fd);
     mc_observe("%s closed", c->name);
@@ -1205,6 +1301,7 @@ static void xcmc_client(struct client *c)
     }
     c->waiting = 0;
     free(m);
+    park(c);
     mc_sched_point("c-close");
     g_xc_cur[c->idx] = NULL;
     xcmc_close(s);
@@ -1220,6 +1317,8 @@ static void task_client(void *arg)
         raw_client(c);
     c->done = 1;
     g_clients_done++;
+    if (!c->parked)
+        g_settled++;
 }
 
 /* ---- scenario -------------------------------------------------------------------------------------------- */
@@ -1311,6 +1410,7 @@ static void scenario(const char *params)
     g_names = (int)param_int(params, "names", 0);
     g_rel = (int)param_int(params, "rel", 0);
     g_pumpn = (int)param_int(params, "pumpn", 257);
+    g_probe16 = (int)param_int(params, "probe16", 0);
     if (strlen(g_alpha) > 15)
         mc_fail("internal/alphabet", "at most 15 items per free choice");
     for (int i = 0; i < MAXCL; i++) {
